@@ -1353,3 +1353,6 @@ func (p *Prog) CalleeFacts(call *ssa.Call, val bool) (FactSet, map[ssa.Value]ssa
 	}
 	return acc, subst
 }
+
+// Outer returns the outermost enclosing function of fn.
+func Outer(fn *ssa.Function) *ssa.Function { return outer(fn) }
